@@ -290,8 +290,16 @@ static int doOpen(int dirfd, const char* cpath, int flags, mode_t mode,
   int e = errno;
   if (fd >= 0)
     classify(fd, full, (at && c && !isDirOpen) ? c->inc : -1, name, wr);
-  record("open", label(c ? c->inc : -1), fname, "", flags, 0, fd >= 0 ? 0 : -e,
-         c ? c->inc : -1);
+  Ev& ev = record("open", label(c ? c->inc : -1), fname, "", flags, 0,
+                  fd >= 0 ? 0 : -e, c ? c->inc : -1);
+  if (fd >= 0 && c && name == "cgroup.procs") {
+    // the bytes oomd is about to read: the content at open time (files are
+    // replaced atomically, so the reader keeps this snapshot)
+    Json::Value arr(Json::arrayValue);
+    for (int p : c->pids)
+      arr.append(p);
+    ev.extra["pids"] = arr;
+  }
   errno = e;
   return fd;
 }
